@@ -128,6 +128,20 @@ def cases(tier, seed):
                     pos = sorted(rng.sample(range(len(data)), min(nbytes, len(data))))
                     cs.append({'T': T, 'op': 'mutate', 'conn': conn, 'at': label, 'pos': pos, 'vals': [rng.randrange(256) for _ in pos]})
                 cs.append({'T': T, 'op': 'random', 'conn': conn, 'at': label, 'seed': rng.randrange(1000)})
+                if label == 'gexgroup':
+                    # well-framed, well-encoded groups with degenerate numbers: arithmetic, not parsing, has to cope
+                    for pv, gv in ((0, 2), (1, 2), (2, 2), (3, 2), (5, 2), (6, 2), (7, 0), (4096, 1), (2 ** 64, 0), (9, 2 ** 70)):
+                        cs.append({'T': T, 'op': 'crafted', 'conn': conn, 'at': label, 'what': 'degenerate-group:p=%d,g=%d' % (pv, gv), 'hex': wire.packet(wire.gex_group(pv, gv)).hex()})
+                    cs.append({'T': T, 'op': 'crafted', 'conn': conn, 'at': label, 'what': 'negative-p', 'hex': wire.packet(bytes([31]) + wire.mpint(-(2 ** 1023)) + wire.mpint(2)).hex()})
+                if label == 'kexreply':
+                    for what, blob in (('rsa-zero-modulus', wire.string('ssh-rsa') + wire.mpint(65537) + wire.mpint(0)), ('rsa-empty-e', wire.string('ssh-rsa') + wire.string(b'') + wire.mpint(wire.det_int(2048))),
+                                       ('type-only', wire.string('ssh-rsa')), ('empty-blob', b''), ('huge-type', wire.string('x' * 3000)), ('rsa-16384', wire.rsa_blob(16384))):
+                        cs.append({'T': T, 'op': 'crafted', 'conn': conn, 'at': label, 'what': 'hostkey:' + what, 'hex': wire.packet(wire.kex_reply(31, blob)).hex()})
+                if label == 'banner' and conn == 0:
+                    eol = b'\r\n'
+                    for what, raw in (('huge-minor-version', b'SSH-2.' + b'1' * 5000 + b'-OpenSSH_9.3' + eol), ('huge-software', b'SSH-2.0-' + b'A' * 9000 + eol), ('long-line-no-newline', b'X' * 9000),
+                                      ('many-header-lines', b''.join(b'line %d\r\n' % i for i in range(400)) + data), ('nul-bytes', b'\x00' * 64 + data), ('only-newlines', b'\n' * 3000 + data)):
+                        cs.append({'T': T, 'op': 'crafted', 'conn': conn, 'at': label, 'what': 'banner:' + what, 'hex': raw.hex()})
                 if label not in ('banner', 'vdiff', 'pkm'):
                     t = data[5]
                     crafted = {'empty-payload': wire.u32(12) + bytes([11]) + b'\0' * 11, 'type-only': wire.packet(bytes([t])), 'type-plus-4': wire.packet(bytes([t]) + b'\0\0\0\1'),
@@ -170,6 +184,8 @@ def first_connection_verdict(tx, proto=2):
         if line.startswith(b'SSH-'):
             if not BANNER_RX.match(line.rstrip(b'\r')):
                 return 'malformed', 'identification line malformed'
+            if len(line) > 255:
+                return 'dontcare', 'identification line longer than the 255 bytes RFC 4253 allows'
             banner = line
             break
         if pos > 16384:
@@ -194,6 +210,8 @@ def first_connection_verdict(tx, proto=2):
 
 def ssh1_verdict(tx):
     v, rest = first_connection_verdict(tx, proto=1)
+    if v == 'dontcare':
+        return 'dontcare', rest
     if v != 'banner-only':
         return 'malformed', rest
     if len(rest) < 4:
@@ -321,7 +339,7 @@ def run_case(c):
     if T == 'T5':
         conn = p.conns[1] if len(p.conns) > 1 else None
         v0 = first_connection_verdict(p.conns[0].tx, proto=1)[0] if p.conns else 'malformed'
-        verdict, info = ssh1_verdict(conn.tx) if (conn is not None and v0 == 'banner-only' and p.conns[0].tx.endswith(b'Protocol major versions differ.\n')) else ('malformed', 'first connection')
+        verdict, info = ssh1_verdict(conn.tx) if (conn is not None and v0 == 'banner-only' and p.conns[0].tx.endswith(b'Protocol major versions differ.\n')) else (('dontcare', '') if v0 == 'dontcare' else ('malformed', 'first connection'))
         if c['op'] != 'none' and c.get('at') == 'vdiff':
             verdict = 'dontcare'  # what an SSH-1-only server says to an SSH-2 client is not specified
     else:
